@@ -49,7 +49,7 @@ class Progress:
     def __init__(self, prog, scope_files):
         self.prog = prog
         self.scope_files = set(scope_files)
-        self.bodies = {k: b for k, b in prog.bodies.items() if b.crate == "pasfmt_core.lib"}
+        self.bodies = {k: b for k, b in prog.bodies.items() if b.crate in ("pasfmt_core.lib", "pasfmt_canary.lib")}
         self.orig = {}
         self.callrefs = {}        # body -> {bb: ref} for Fn::call on own param/upvar
         self.ma = {}              # body -> list of frozenset(assumptions) (minimal); [] = not MA
